@@ -109,9 +109,6 @@ func (in *Interp) stackString() string {
 }
 
 func (in *Interp) ensureBuilt(fn *ssa.Function) {
-	if fn.Blocks != nil {
-		return
-	}
 	pkg := fn.Pkg
 	if pkg == nil && fn.Origin() != nil {
 		pkg = fn.Origin().Pkg
